@@ -26,7 +26,7 @@ SPEC_P = dict(n_species=(1, 4), n_reactions=(0, 3), max_order=3, max_cells=9, gr
 
 
 def n_cases(tier):
-    return 380 if tier == "quick" else 8000
+    return 340 if tier == "quick" else 8000
 
 
 def timeout(tier):
